@@ -978,13 +978,38 @@ Proof.
   apply in_flat_map. exists p. split; [destruct p; cbn; tauto|]. apply in_map. destruct z; cbn; tauto.
 Qed.
 
+(* the hand-off of the first result never blocks the loop: from the program point "CONNACK accepted" the loop
+   reaches its supervising select in one step in EVERY environment — whatever the caller of Connect does
+   (still waiting, or gone through its context) *)
+Theorem handoff_never_blocks : forall e, exists e', lstep LHandoff e = Some (LUp, e').
+Proof. intros e. eexists. reflexivity. Qed.
+
+Theorem connack_accepted_reaches_supervision : forall e, r_ack e = true -> fst (lrun 2 LConnect e) = LUp.
+Proof. intros e H. cbn. rewrite H. reflexivity. Qed.
+
+Lemma cxmatrix_ok_b : forallb (fun k => cx_ok (fst k) (cx_run (fst k) (snd k))) cxmatrix = true.
+Proof. vm_compute. reflexivity. Qed.
+
+(* the context of the reconnecting Connect ending at each point of the first connection's establishment, followed
+   by Disconnect / a peer close / nothing: Connect returns its context's error (nil if it had returned before),
+   Disconnect returns nil, a peer close of an established connection is followed by a redial, and no loop
+   goroutine is left unless it supervises an established connection *)
+Theorem connect_ctx_at_each_point : forall p f, In (p, f) cxmatrix -> cx_ok p (cx_run p f) = true.
+Proof. intros p f H. exact (proj1 (forallb_forall _ _) cxmatrix_ok_b _ H). Qed.
+
+Lemma cxmatrix_complete : forall p f, cx_valid p f = true -> In (p, f) cxmatrix.
+Proof.
+  intros p f H. unfold cxmatrix. apply filter_In. split; [|exact H].
+  apply in_flat_map. exists p. split; [destruct p; cbn; tauto|]. apply in_map. destruct f; cbn; tauto.
+Qed.
+
 (* all environments of the loop goroutine *)
 Definition bools := [true; false].
 Definition all_renv : list renv :=
   flat_map (fun a => flat_map (fun b => flat_map (fun c => flat_map (fun d => flat_map (fun e =>
   flat_map (fun f => flat_map (fun g => flat_map (fun h => map (fun i => mkR a b c d e f g h i) bools) bools) bools) bools)
   bools) [DFail; DOk; DHang]) bools) bools) bools.
-Definition all_lst := [LIdle; LDial; LConnect; LUp; LCloseWait; LBackoff; LExit].
+Definition all_lst := [LIdle; LDial; LConnect; LHandoff; LUp; LCloseWait; LBackoff; LExit].
 
 (* the loop has been told to stop — Disconnect closed c.disconnected (which also aborts a handshake in
    progress, fix 515978c), or the context of the first Connect is done and the broker does not complete a
@@ -995,6 +1020,7 @@ Definition stoppable (st : lst) (e : renv) : bool :=
   match st with
   | LIdle => false
   | LDial => match r_dial e with DHang => loop_ctx_done e | _ => true end
+  | LHandoff => r_disc e   (* past the hand-off the loop runs on context.Background(): only Disconnect stops it *)
   | _ => true
   end.
 
